@@ -5,7 +5,9 @@
 (* the directory listing it really sees (which names exist, and -- by importing the    *)
 (* bytes with the real import -- which graph each file holds) and the names that were  *)
 (* really fsynced during the step (fsync/fdatasync interposer in the harness binary).  *)
-(* Crash unwinds the parked request; PowerLoss additionally rewrites the directory to  *)
+(* Reject sends an upload the handler must refuse (a snapshot cut short: valid header,  *)
+(* broken body; or garbage) and logs whether it was refused at once or only after it had *)
+(* entered persist_snapshot.  Crash unwinds the parked request; PowerLoss additionally rewrites the directory to  *)
 (* the durable state chosen by TLC in the script; Restart calls the real               *)
 (* restore_persisted_snapshots on the directory and logs the restored graph.           *)
 (* Every event must be a step of FsPersist whose resulting listing equals the observed *)
@@ -13,7 +15,7 @@
 (* Restart is judged by the property itself (restored graph \in allowed).              *)
 EXTENDS FsPersist, TraceBase
 
-tvars == <<dir, ddir, pend, vol, dur, up, busy, cur, nimp, mem, okG, allowed, fresh, l, sid, used, failed>>
+tvars == <<dir, ddir, pend, vol, dur, up, busy, cur, nimp, mem, okG, bad, allowed, fresh, l, sid, used, failed>>
 
 \* observed listing agrees with the model's (the graph of a torn file cannot be observed)
 EntryOK(o, c) == /\ o.st = c.st
@@ -25,16 +27,25 @@ TInit == FPInit /\ TBInit
 ModelReset ==
            /\ dir' = NoDir /\ ddir' = NoDir /\ pend' = <<>> /\ vol' = <<>> /\ dur' = <<>>
            /\ up' = TRUE /\ busy' = FALSE /\ cur' = 0 /\ nimp' = 0 /\ mem' = {} /\ okG' = {{}}
-           /\ allowed' = {{}} /\ fresh' = FALSE
+           /\ allowed' = {{}} /\ fresh' = FALSE /\ bad' = FALSE
 T_Reset == ResetBook /\ ModelReset
 T_Fail == FailBook /\ ModelReset
 
 T_Import == IsEv("Import") /\ Ev.res = "begin" /\ Import(Ev.k) /\ ObsDirOK /\ SyncedOK({}) /\ Same
 
+\* an upload the handler refuses: answered 4xx at once, nothing touched ...
+T_Reject == /\ IsEv("Reject") /\ Ev.res = "refused" /\ Ev.status >= 400
+            /\ RejectDirect /\ ObsDirOK /\ SyncedOK({}) /\ SeqToSet(Ev.obs.mem) = mem' /\ Same
+\* ... or it got as far as persist_snapshot (hook point "begin") before being refused
+T_BadUpload == IsEv("Reject") /\ Ev.res = "begin" /\ BadUpload(Ev.k) /\ ObsDirOK /\ SyncedOK({}) /\ Same
+T_Refused == /\ IsEv("Refused") /\ Ev.status >= 400
+             /\ Refuse /\ ObsDirOK /\ SeqToSet(Ev.obs.mem) = mem' /\ Same
+
 T_Step ==
     /\ IsEv("Step") /\ Ev.point \in StepNames
-    /\ \/ PStep(Ev.point, IdealContent) /\ Same
-       \/ Ev.point = "tmp_written" /\ KF_C14_OnlyLastImportKept /\ KF("KF_C14_OnlyLastImportKept")
+    /\ \/ bad /\ PStep(Ev.point, BadContent) /\ Same
+       \/ ~bad /\ PStep(Ev.point, IdealContent) /\ Same
+       \/ ~bad /\ Ev.point = "tmp_written" /\ KF_C14_OnlyLastImportKept /\ KF("KF_C14_OnlyLastImportKept")
     /\ ObsDirOK /\ SyncedOK(SyncedBy(Ev.point))
 
 T_Ack == IsEv("Ack") /\ Ev.status = 200 /\ Ack /\ ObsDirOK /\ SeqToSet(Ev.obs.mem) = mem' /\ Same
@@ -59,6 +70,6 @@ T_Restart ==
        \/ KF_C14_OnlyLastImportKept_Seen(RestoredG) /\ KF("KF_C14_OnlyLastImportKept")
     /\ ObsDirOK
 
-TNext == T_Fail \/ T_Reset \/ T_Import \/ T_Step \/ T_Ack \/ T_Crash \/ T_PowerLoss \/ T_Restart
+TNext == T_Fail \/ T_Reset \/ T_Import \/ T_Reject \/ T_BadUpload \/ T_Refused \/ T_Step \/ T_Ack \/ T_Crash \/ T_PowerLoss \/ T_Restart
 TSpec == TInit /\ [][TNext]_tvars
 =============================================================================
